@@ -5,6 +5,7 @@ value-origin chains over reaching definitions."""
 from __future__ import annotations
 
 import ast
+import copy
 import itertools
 import re
 import typing as t
@@ -114,8 +115,10 @@ def call_params(fi: FuncInfo, bound: bool) -> list[str]:
     return names
 
 
-def bind(call: ast.Call, fi: FuncInfo, bound: bool) -> dict[str, ast.AST]:
-    """parameter name -> argument expression for a call of ``fi`` (bound: called as a method on an instance)."""
+def bind(call: ast.Call, fi: FuncInfo, bound: bool, fold: t.Callable[[ast.AST], t.Any] | None = None) -> dict[str, ast.AST]:
+    """parameter name -> argument expression for a call of ``fi`` (bound: called as a method on an instance).
+    ``fold``: expression -> Python constant (raising AnalysisError when it is not one), used to read the iterable of a
+    ``**{... for ... in TABLE}`` comprehension that is a module-level constant."""
     args: list[ast.AST] = []
     for x in call.args:
         if isinstance(x, ast.Starred):
@@ -135,7 +138,7 @@ def bind(call: ast.Call, fi: FuncInfo, bound: bool) -> dict[str, ast.AST]:
             elif isinstance(lit, ast.Call) and dotted(lit.func) == "dict" and not lit.args and all(kk.arg is not None for kk in lit.keywords):
                 pairs = [(kk.arg, kk.value) for kk in lit.keywords]  # type: ignore[misc]
             elif isinstance(lit, ast.DictComp):
-                pairs = _unrolled_dictcomp(lit)
+                pairs = _unrolled_dictcomp(lit, fold)
             if pairs is None or len({n for n, _ in pairs}) != len(pairs):
                 raise AnalysisError(f"call `{norm(call)}` uses **{norm(k.value)}, which is not a literal table of keyword arguments (or a local bound once to one): cannot bind arguments")
             keywords.extend(pairs)
@@ -199,7 +202,32 @@ class _FoldStr(ast.NodeTransformer):
         return n
 
 
-def _unrolled_dictcomp(e: ast.DictComp) -> list[tuple[str, ast.AST]] | None:
+def _const_iterable(it: ast.AST, fold: t.Callable[[ast.AST], t.Any] | None) -> ast.AST | None:
+    """the iterable of a comprehension as a literal tuple of constants: the literal itself, or - with ``fold`` - a
+    constant table (module-level name, ``TABLE.items()`` / ``.keys()`` / ``.values()`` of a constant dict) written out"""
+    if isinstance(it, (ast.Tuple, ast.List)):
+        return it
+    if fold is None:
+        return None
+    try:
+        if isinstance(it, ast.Call) and isinstance(it.func, ast.Attribute) and it.func.attr in ("items", "keys", "values") and not it.args and not it.keywords:
+            d = fold(it.func.value)
+            if not isinstance(d, dict):
+                return None
+            val: t.Any = list(getattr(d, it.func.attr)())
+        else:
+            val = fold(it)
+            if isinstance(val, dict):
+                val = list(val)
+        if not isinstance(val, (list, tuple)):
+            return None
+        lit = ast.parse(repr(tuple(val)), mode="eval").body
+    except (AnalysisError, SyntaxError, ValueError):
+        return None
+    return lit if isinstance(lit, ast.Tuple) else None
+
+
+def _unrolled_dictcomp(e: ast.DictComp, fold: t.Callable[[ast.AST], t.Any] | None = None) -> list[tuple[str, ast.AST]] | None:
     """``{f(k): g(k) for k in (<constants>)}`` written out: one (key, value expression) per constant, with the loop
     variable replaced and constant string expressions folded.  None when the table is not of that form."""
     import copy
@@ -207,10 +235,11 @@ def _unrolled_dictcomp(e: ast.DictComp) -> list[tuple[str, ast.AST]] | None:
     if len(e.generators) != 1:
         return None
     g = e.generators[0]
-    if g.ifs or g.is_async or not isinstance(g.iter, (ast.Tuple, ast.List)):
+    it = _const_iterable(g.iter, fold)
+    if g.ifs or g.is_async or it is None:
         return None
     out: list[tuple[str, ast.AST]] = []
-    for el in g.iter.elts:
+    for el in it.elts:  # type: ignore[attr-defined]
         env: dict[str, t.Any] = {}
         if isinstance(g.target, ast.Name) and isinstance(el, ast.Constant):
             env[g.target.id] = el.value
@@ -462,6 +491,8 @@ def none_proving(atom: ast.AST, label: str) -> str | None:
     if p is None:
         return None
     a, op, b = p
+    if isinstance(a, ast.NamedExpr) and isinstance(a.target, ast.Name):  # (v := f()) is None: a test of v
+        a = a.target
     if isinstance(a, ast.Name) and astq.is_none(b):
         if isinstance(op, ast.Is) and label == "T":
             return a.id
@@ -699,16 +730,27 @@ def expand_returns(fn: ast.AST) -> list[tuple[ast.Return, ast.AST | None, list[t
     return out
 
 
-def header_get_key(e: ast.AST) -> tuple[str, str] | None:
-    """``X.get("k")`` / ``X["k"]`` -> (text of X, k)."""
-    if isinstance(e, ast.Call) and isinstance(e.func, ast.Attribute) and e.func.attr == "get" and e.args:
+def header_get_key(e: ast.AST, lookup: t.Callable[[ast.Name], ast.AST | None] | None = None) -> tuple[str, str] | None:
+    """``X.get("k")`` / ``X["k"]`` -> (text of X, k); with ``lookup`` (name use -> the expression it was bound to) also
+    ``get("k")`` after ``get = X.get``."""
+    f = e.func if isinstance(e, ast.Call) else None
+    if isinstance(f, ast.Name) and lookup is not None:
+        f = lookup(f) or f
+    def recv(x: ast.AST) -> str:
+        if isinstance(x, ast.Name) and lookup is not None:  # headers = self.headers; headers.get("etag")
+            v = lookup(x)
+            if v is not None and dotted(v) is not None:
+                return norm(v)
+        return norm(x)
+
+    if isinstance(e, ast.Call) and isinstance(f, ast.Attribute) and f.attr == "get" and e.args:
         k = astq.const_str(e.args[0])
         if k is not None:
-            return norm(e.func.value), k
+            return recv(f.value), k
     if isinstance(e, ast.Subscript):
         k = astq.const_str(e.slice)
         if k is not None:
-            return norm(e.value), k
+            return recv(e.value), k
     return None
 
 
@@ -1258,3 +1300,159 @@ class VerdictTable:
         got = "modified" if m.expected else "not modified"
         want = "not modified" if m.expected else "modified"
         return f"{'; '.join(parts)} -> answers '{got}', the {_ROLE_NAME[m.role]} comparison alone requires '{want}'"
+
+
+# ---------------------------------------------------------------------
+# one level of private helpers, inlined: `v = _helper(a, b)` -> the helper's body with `return e` turned into `v = e`
+
+
+class _Rename(ast.NodeTransformer):
+    def __init__(self, names: dict[str, str]):
+        self.names = names
+
+    def visit_Name(self, n: ast.Name) -> ast.AST:
+        if n.id in self.names:
+            return ast.copy_location(ast.Name(id=self.names[n.id], ctx=n.ctx), n)
+        return n
+
+
+def _tail_returns(stmts: list[ast.stmt], target: str, at: ast.AST) -> list[ast.stmt] | None:
+    """the statement list of a loop-free function body with every `return e` replaced by `target = e` and the
+    statements after an `if` that returns on some arm moved into the arms that do not (so control never has to leave
+    the list early); None when a return sits where this cannot express it."""
+    out: list[ast.stmt] = []
+    for i, st in enumerate(stmts):
+        if isinstance(st, ast.Return):
+            v = st.value if st.value is not None else ast.copy_location(ast.Constant(value=None), st)
+            out.append(ast.copy_location(ast.Assign(targets=[ast.copy_location(ast.Name(id=target, ctx=ast.Store()), st)], value=v), st))
+            return out
+        has_ret = any(isinstance(x, ast.Return) for x in walk_no_nested(st))
+        if not has_ret:
+            out.append(st)
+            continue
+        if not isinstance(st, ast.If):
+            return None
+        rest = stmts[i + 1 :]
+        body = _tail_returns(list(st.body) + copy.deepcopy(rest), target, st)
+        orelse = _tail_returns(list(st.orelse) + copy.deepcopy(rest), target, st)
+        if body is None or orelse is None:
+            return None
+        out.append(ast.copy_location(ast.If(test=st.test, body=body, orelse=orelse), st))
+        return out
+    # fell off the end: the function returns None
+    out.append(ast.copy_location(ast.Assign(targets=[ast.copy_location(ast.Name(id=target, ctx=ast.Store()), at)], value=ast.copy_location(ast.Constant(value=None), at)), at))
+    return out
+
+
+def inline_private_helpers(repo: Repo, fi: FuncInfo, saw: t.Callable[[FuncInfo], None] | None = None) -> FuncInfo:
+    """``fi`` with every statement ``v = _h(args)`` / ``return [not] _h(args)`` whose callee is a private plain function of
+    the same module - loop-free, no try / with / nested definitions / generators, arguments that are names, attributes
+    or constants - replaced by the helper's body: parameters bound to the arguments (or defaults) first, the helper's
+    names made unique, ``return e`` turned into ``v = e``.  A piece of the function moved into such a helper is then
+    analysed as if it had stayed where it was.  Anything else is left as the call it is; ``fi`` itself is returned when
+    nothing was inlined."""
+    if fi.cls is not None:
+        return fi
+    limports = fi.module.local_imports(fi.node)
+    count = [0]
+
+    def callee_of(call: ast.AST) -> FuncInfo | None:
+        if not (isinstance(call, ast.Call) and isinstance(call.func, ast.Name)):
+            return None
+        fq = repo.resolve(fi.module, call.func.id, limports)
+        h = repo.try_func(fq) if fq and fq.startswith("werkzeug.") else None
+        if h is None or h.module is not fi.module or h.cls is not None or h.decorators or not h.name.startswith("_") or h.fq == fi.fq or fq in _PURE:
+            return None
+        bad = (ast.For, ast.AsyncFor, ast.While, ast.Try, ast.With, ast.AsyncWith, ast.Yield, ast.YieldFrom, ast.Await, ast.Global, ast.Nonlocal, ast.FunctionDef, ast.AsyncFunctionDef, ast.ClassDef, ast.Lambda, ast.Delete, ast.Match)
+        if any(isinstance(x, bad) for st in h.node.body for x in ast.walk(st)):  # type: ignore[attr-defined]
+            return None
+        a = h.node.args  # type: ignore[attr-defined]
+        if a.vararg or a.kwarg:
+            return None
+        return h
+
+    def negated(v: ast.AST, n: int, at: ast.AST) -> ast.AST:
+        for _ in range(n):
+            v = ast.copy_location(ast.UnaryOp(op=ast.Not(), operand=v), at)
+        return v
+
+    class _NegReturns(ast.NodeTransformer):
+        def __init__(self, n: int):
+            self.n = n
+
+        def visit_Return(self, r: ast.Return) -> ast.AST:
+            v = r.value if r.value is not None else ast.copy_location(ast.Constant(value=None), r)
+            return ast.copy_location(ast.Return(value=negated(v, self.n, r)), r)
+
+    def expand(st: ast.stmt, call: ast.Call, target: str | None, nots: int = 0) -> list[ast.stmt] | None:
+        """target None: the statement is `return [not] call` - the helper's returns become the function's returns"""
+        h = callee_of(call)
+        if h is None:
+            return None
+        try:
+            b = bind(call, h, bound=False)
+        except AnalysisError:
+            return None
+        count[0] += 1
+        sfx = f"__{h.name.strip('_')}{count[0]}"
+        stored = {x.id for x in ast.walk(h.node) if isinstance(x, ast.Name) and isinstance(x.ctx, ast.Store)} | set(h.params)
+        names = {n: n + sfx for n in stored}
+        rebound = {x.id for x in ast.walk(h.node) if isinstance(x, ast.Name) and isinstance(x.ctx, ast.Store)}
+        pro: list[ast.stmt] = []
+        for p in h.params:
+            v = b.get(p, param_default(h, p))
+            if v is None or not all(isinstance(x, (ast.Name, ast.Attribute, ast.Constant, ast.Load)) for x in ast.walk(v)):
+                return None
+            if isinstance(v, ast.Name) and b.get(p) is v and (p not in rebound or target is None or v.id == target):
+                # a parameter the helper only reads is the caller's variable itself; so is one it rebinds when the
+                # caller's variable is dead after the call (the call's result overwrites it / the function returns)
+                names[p] = v.id
+                continue
+            pro.append(ast.copy_location(ast.Assign(targets=[ast.copy_location(ast.Name(id=names[p], ctx=ast.Store()), st)], value=copy.deepcopy(v)), st))
+        body = [copy.deepcopy(x) for x in h.node.body]  # type: ignore[attr-defined]
+        if body and isinstance(body[0], ast.Expr) and isinstance(body[0].value, ast.Constant) and isinstance(body[0].value.value, str):
+            body = body[1:]
+        body = [_Rename(names).visit(x) for x in body]
+        if target is None:
+            tail: list[ast.stmt] | None = [_NegReturns(nots).visit(x) for x in body]
+            if not body or not isinstance(body[-1], (ast.Return, ast.If, ast.Raise)) or (isinstance(body[-1], ast.If) and not body[-1].orelse):
+                tail.append(ast.copy_location(ast.Return(value=negated(ast.copy_location(ast.Constant(value=None), st), nots, st)), st))  # type: ignore[union-attr]
+        else:
+            tail = _tail_returns(body, target, st)
+        if tail is None:
+            return None
+        if saw is not None:
+            saw(h)
+        return pro + tail
+
+    def walk_body(stmts: list[ast.stmt]) -> list[ast.stmt]:
+        out: list[ast.stmt] = []
+        for st in stmts:
+            new: list[ast.stmt] | None = None
+            if isinstance(st, ast.Assign) and len(st.targets) == 1 and isinstance(st.targets[0], ast.Name):
+                new = expand(st, st.value, st.targets[0].id)  # type: ignore[arg-type]
+            elif isinstance(st, ast.AnnAssign) and isinstance(st.target, ast.Name) and st.value is not None:
+                new = expand(st, st.value, st.target.id)  # type: ignore[arg-type]
+            elif isinstance(st, ast.Return) and st.value is not None:
+                e, n = strip_not(st.value)
+                if callee_of(e) is not None:
+                    new = expand(st, e, None, n)  # type: ignore[arg-type]
+            if new is not None:
+                out += new
+                continue
+            if isinstance(st, ast.If):
+                st.body = walk_body(st.body)
+                st.orelse = walk_body(st.orelse)
+            out.append(st)
+        return out
+
+    node = copy.deepcopy(fi.node)
+    node.body = walk_body(node.body)  # type: ignore[attr-defined]
+    if not count[0]:
+        return fi
+    ast.fix_missing_locations(node)
+    for x in ast.walk(node):
+        for ch in ast.iter_child_nodes(x):
+            ch._parent = x  # type: ignore[attr-defined]
+    node._parent = getattr(fi.node, "_parent", None)  # type: ignore[attr-defined]
+    return FuncInfo(fi.module, node, fi.qualname, None)
